@@ -1,5 +1,6 @@
 SPECIFICATION Spec
 CONSTANTS
   Menus <- MenusAll
-INVARIANTS PristineParses WrongPassphrase MissingPassphrase AcceptOnlyConsistentOrGap
+  FixConsistency = TRUE
+INVARIANTS PristineParses WrongPassphrase MissingPassphrase AcceptOnlyConsistentOrGap AcceptOnlyConsistent
 CHECK_DEADLOCK FALSE
